@@ -7,6 +7,7 @@ import Quanto.AwqBits
 import Quanto.OpsWire
 import Quanto.Spec.C05
 import Quanto.Linear
+import Quanto.Calib
 open Quanto
 
 /-- scalar-or-per-element lookup -/
@@ -207,6 +208,37 @@ def handle (toks : List String) : String :=
       let c : MmConfig := ⟨pl act, pl weight, rows.toNat!, inF.toNat!, outF.toNat!, ge24 == "1"⟩
       let k := match dev with | "cpu" => routeCPU c | "cuda" => routeCUDA c | _ => routeMPS c
       match k with | .floatMm => "float" | .intMm => "int" | .int8packMm => "pack"
+  -- C12: calib12 F mnum mden ev…   (ev = b:<bits> | a:<bits>)
+  | "calib12" :: f :: mn :: md :: evs =>
+      let F := fmtOfName f
+      let m : Rat := (mn.toInt! : Rat) / (md.toNat! : Rat)
+      let events := evs.map fun e =>
+        let v := F.decode ((e.drop 2).toString.toNat!)
+        if e.startsWith "a:" then ScaleEvent.adopt v else ScaleEvent.batch v
+      let fin := calibFold F m events
+      let spec := emaSpec F m events none
+      s!"{F.encode fin} {match spec with | some v => toString (F.encode v) | none => "none"}"
+  -- C13: hooks13 <trace as nested parens, e.g. (1(2))(3)>  → final pre ids, post ids, stack depth, nextId
+  | ["hooks13", tr] =>
+      let rec parse (cs : List Char) (fuel : Nat) : Trace × List Char :=
+        match fuel with
+        | 0 => (.nil, cs)
+        | fuel + 1 =>
+          match cs with
+          | '(' :: rest =>
+            let digits := rest.takeWhile Char.isDigit
+            let id := (String.ofList digits).toNat!
+            let (inner, r1) := parse (rest.dropWhile Char.isDigit) fuel
+            match r1 with
+            | ')' :: r2 =>
+              let (next, r3) := parse r2 fuel
+              (.ctx id inner next, r3)
+            | _ => (.nil, r1)
+          | _ => (.nil, cs)
+      let (t, _) := parse tr.toList (tr.length + 1)
+      let g0 : HookState := ⟨[], [], 0, []⟩
+      let g := runTrace g0 t
+      s!"{g.preHooks.length} {g.postHooks.length} {g.modeStack.length} {g.nextId}"
   -- C04
   | ["pack", bits, shape, data] =>
       let t : T Nat := ⟨parseShape shape, (parseNatList data).toArray⟩
